@@ -108,6 +108,8 @@ def make_monitor(kind):
         visit_q = [None] * nthreads       # queue whose head I loaded last (consumer)
         headset_q = [None] * nthreads     # queue whose head I advanced in this call
         nullvisits = [None] * nthreads    # queues found NULL in this trypop call
+        head = [q + 1 for q in range(nq)]  # shadow of each head pointer (stubs are nodes 1..nq)
+        headseen = [None] * nthreads      # head value my trypop loaded from the queue it popped
         pushvals_seen = set()
 
         def tail_loc(loc):
@@ -146,6 +148,10 @@ def make_monitor(kind):
                         why = queues[q].popped(lr[1])
                         if why:
                             return why
+                        if val == head[q]:
+                            return "trypop returned node %d which is still the stub (head) of its queue" % val
+                        if val != headseen[t]:
+                            return "trypop returned node %d, not the old stub %s it unlinked" % (val, headseen[t])
                         lastpop[t] = val
                     else:
                         if headset_q[t] is not None:
@@ -186,10 +192,12 @@ def make_monitor(kind):
             if op == POP:
                 if head_loc(loc) and K in (0, 2):
                     visit_q[t] = qof(loc)
+                    headseen[t] = val
                 elif head_loc(loc) and K in (1, 3):
                     if headset_q[t] is not None:
                         return "trypop advanced two heads"
                     headset_q[t] = qof(loc)
+                    head[qof(loc)] = val
                 elif is_next_loc(loc) and K in (0, 2) and val == 0 and headset_q[t] is None:
                     q = visit_q[t]
                     if q is None:
